@@ -1661,7 +1661,7 @@ impl Fam {
 }
 
 const STRUCT_BYTES: [u8; 16] = [0x00, 0x0a, 0x20, b'%', b'(', b')', b'<', b'>', b'[', b']', b'/', b'\\', b'0', b'9', b'-', 0xff];
-const QUICK_BYTES: [u8; 3] = [b' ', b'(', b'9'];
+const QUICK_BYTES: [u8; 3] = [b' ', b'(', 0xff];
 
 #[derive(Clone, Copy, Debug, PartialEq, Eq)]
 enum ByteOp {
@@ -1824,9 +1824,14 @@ impl Space {
                 if chain && d > 5000 {
                     continue;
                 }
-                // content-stream operator kinds: 100000 levels is more than a megabyte of operators
-                // and lands near the 5 s deadline for size alone (the BDC property-list kind stays)
-                if ((4..=6).contains(&k) || k == 13) && d > 20000 {
+                // content-stream operator kinds: 20000 levels already take 0.4 s of CPU on an idle
+                // machine, and per-case CPU clocks were seen to inflate tenfold on a loaded
+                // (virtualised) one; stay far away from the 5 s deadline (the BDC property-list
+                // kind keeps all depths: it ends early, by stack overflow or error)
+                if ((4..=6).contains(&k) || k == 13) && d > 5000 {
+                    continue;
+                }
+                if k == 12 && d > 20000 {
                     continue;
                 }
                 for closed in [true, false] {
